@@ -110,6 +110,9 @@ def run(prop, tier):
         p_models.run_job(rep, job)
     if prop in USES_SINGLE:
         feed_single(rep, tier)
+    if prop == "C05":
+        import p_dp
+        p_dp.feed(rep, p_dp.dp_results(tier))
     files = ring_results(tier)
     feed(rep, files, SERVES.get(prop))
     rep.samples = sample_events(files, (SERVES.get(prop) or ("ff",))[0])
